@@ -71,6 +71,19 @@ def run(chk: core.Check, n: int):
             ok = True
         if not ok:
             bad("helix_obj(momentum, position, charge, pivot) round trip", i, got, want, "constructing a helix from its own report reproduces it"); break
+        if i % 4 == 0:
+            # history: the reports of a helix were read, then it is moved: the moved helix reports ITS position / momentum (formulas on its own
+            # parameters), and rebuilding it from its own report reproduces it
+            _ = (o.position, o.momentum, o.radius, o.charge)
+            npv = tuple(float(x) for x in (h["piv"][i] + rng.uniform(0.5, 3.0, 3)))
+            g = o.change_pivot(npv)
+            gp, gm = g.position, g.momentum
+            wantg = [npv[0] + g.dr * math.cos(g.phi0), npv[1] + g.dr * math.sin(g.phi0), npv[2] + g.dz]
+            okg = all(hc.close([gp.x, gp.y, gp.z], wantg, atol=1e-9 * (1 + max(abs(x) for x in npv)))) and hc.circ_close(gm.phi, g.phi0 + math.pi / 2, 1e-9) and hc.close(g.radius, hc.ALPHA / abs(g.kappa))
+            chk.count(1, key="object-history")
+            if not okg:
+                bad("HelixObject: position / momentum of a helix moved AFTER its reports were read", i, {"position": [gp.x, gp.y, gp.z], "momentum_phi": gm.phi, "moved_to": list(npv), "dr_phi0_dz": [g.dr, g.phi0, g.dz]},
+                    {"position": wantg, "momentum_phi": (g.phi0 + math.pi / 2) % hc.TWO_PI}, doc + " evaluated on the moved helix's own parameters"); break
         if i % 5 == 0:   # the three ways of passing parameters
             a = pybes3.helix_obj(*want, pivot=tuple(h["piv"][i]))
             b = pybes3.helix_obj(dr=want[0], phi0=want[1], kappa=want[2], dz=want[3], tanl=want[4], pivot=vector.obj(x=h["piv"][i][0], y=h["piv"][i][1], z=h["piv"][i][2]))
